@@ -42,6 +42,7 @@ type Cfg struct {
 	NoWholeFile   bool
 	NoChains      bool
 	ElementChains bool // with NoChains: components may still be references to whole single-element files
+	NoExtension   bool // documents are named without a file extension
 	RelativeTwins bool // twin element files also when the root location is relative (C16 open finding)
 }
 
@@ -549,11 +550,16 @@ func Generate(t *rapid.T, cfg Cfg) *Layout {
 		}
 		return s
 	}
-	root := p("api/root.json")
+	ext := ".json"
+	if cfg.NoExtension {
+		// document names without an extension ("api-docs"): still files, not directories
+		ext = ""
+	}
+	root := p("api/root" + ext)
 	g.doc(root)
 	ndocs := rapid.IntRange(0, 3).Draw(t, "ndocs")
-	for _, f := range []string{"api/aux.json", "api/sub/deep.json", "shared/common.json"}[:ndocs] {
-		g.doc(p(f))
+	for _, f := range []string{"api/aux", "api/sub/deep", "shared/common"}[:ndocs] {
+		g.doc(p(f + ext))
 	}
 	depth := rapid.IntRange(2, 4).Draw(t, "depth")
 	rd := g.docs[root]
